@@ -915,6 +915,87 @@ Section PrimEqNodal.
     - unfold humidity_div_nodal, ncol_mirror. cbn [n_gx n_gy n_sec2]. ring.
     - unfold humidity_curl_nodal, ncol_mirror. cbn [n_gx n_gy n_sec2]. ring.
   Qed.
+  (** ** congruence: the nodal outputs only depend on the column entries k < K (no functional extensionality) *)
+  Definition ncol_eqv (x y : @NCol F) : Prop :=
+    (forall k, (k < cK c)%nat -> n_u x k = n_u y k) /\ (forall k, (k < cK c)%nat -> n_v x k = n_v y k) /\
+    (forall k, (k < cK c)%nat -> n_vort x k = n_vort y k) /\ (forall k, (k < cK c)%nat -> n_div x k = n_div y k) /\
+    (forall k, (k < cK c)%nat -> n_temp x k = n_temp y k) /\
+    n_gx x = n_gx y /\ n_gy x = n_gy y /\ n_sec2 x = n_sec2 y /\ n_f x = n_f y.
+
+  Section Cong.
+    Variables x y : @NCol F.
+    Hypothesis E : ncol_eqv x y.
+
+    Lemma udg_cong k : (k < cK c)%nat -> u_dot_grad x k = u_dot_grad y k.
+    Proof.
+      destruct E as (Eu & Ev & _ & _ & _ & Egx & Egy & Es & _). intros Hk.
+      unfold u_dot_grad. now rewrite (Eu k Hk), (Ev k Hk), Egx, Egy, Es.
+    Qed.
+    Lemma gfull_cong k : (k < cK c)%nat -> g_full_diag x k = g_full_diag y k.
+    Proof. destruct E as (_ & _ & _ & Ed & _). intros Hk. unfold g_full_diag. now rewrite (Ed k Hk), udg_cong. Qed.
+    Lemma gfull_ad_cong k : (k < cK c)%nat -> g_full_adiabatic x k = g_full_adiabatic y k.
+    Proof. destruct E as (_ & _ & _ & Ed & _). intros Hk. unfold g_full_adiabatic. now rewrite (Ed k Hk), udg_cong. Qed.
+    Lemma sdf_cong r : sigma_dot_full c x r = sigma_dot_full c y r /\ sigma_dot_explicit c x r = sigma_dot_explicit c y r.
+    Proof.
+      unfold sigma_dot_full, sigma_dot_explicit, g_explicit. split; apply sigma_dot_ext; intros k Hk;
+        [now apply gfull_cong|now apply udg_cong].
+    Qed.
+    Lemma vt_cong (s s' : nat -> F) n :
+      (n < cK c)%nat -> (forall k, (k < cK c)%nat -> s k = s' k) ->
+      vertical_tendency c (sigma_dot_full c x) s n = vertical_tendency c (sigma_dot_full c y) s' n /\
+      vertical_tendency c (sigma_dot_explicit c x) s n = vertical_tendency c (sigma_dot_explicit c y) s' n.
+    Proof.
+      intros Hn Hs. split; apply vertical_tendency_ext; try assumption; intros k _; apply (sdf_cong k).
+    Qed.
+    Lemma tomega_cong (Tf Tf' : nat -> F) n :
+      (n < cK c)%nat -> Tf n = Tf' n ->
+      t_omega_over_sigma_sp c Tf (g_explicit x) (u_dot_grad x) n = t_omega_over_sigma_sp c Tf' (g_explicit y) (u_dot_grad y) n /\
+      t_omega_over_sigma_sp c Tf (g_full_adiabatic x) (u_dot_grad x) n
+        = t_omega_over_sigma_sp c Tf' (g_full_adiabatic y) (u_dot_grad y) n.
+    Proof.
+      intros Hn HT. unfold t_omega_over_sigma_sp, g_explicit. rewrite HT, (udg_cong n Hn).
+      split; f_equal; f_equal; apply g_part_ext; intros k Hk; [now apply udg_cong|now apply gfull_ad_cong].
+    Qed.
+
+    Theorem primeq_nodal_cong va (m : Moist) (rt rt' q q' s s' : nat -> F) n :
+      (n < cK c)%nat -> rt n = rt' n -> q n = q' n -> (forall k, (k < cK c)%nat -> s k = s' k) ->
+      temp_nodal_total c va x n = temp_nodal_total c va y n /\
+      temp_nodal_total_moist c va m x q n = temp_nodal_total_moist c va m y q' n /\
+      tracer_nodal_total c va x s n = tracer_nodal_total c va y s' n /\
+      log_pressure_tendency c x = log_pressure_tendency c y /\
+      hsa_mu x s n = hsa_mu y s' n /\ hsa_mv x s n = hsa_mv y s' n /\
+      hsa_mu x (n_temp x) n = hsa_mu y (n_temp y) n /\ hsa_mv x (n_temp x) n = hsa_mv y (n_temp y) n /\
+      combined_u c va x rt n = combined_u c va y rt' n /\ combined_v c va x rt n = combined_v c va y rt' n /\
+      kinetic x n = kinetic y n.
+    Proof.
+      intros Hn Hrt Hq Hs. pose proof E as (Eu & Ev & Ez & Ed & Et & Egx & Egy & Es & Ef).
+      assert (TV : temp_vertical_tendency c va x n = temp_vertical_tendency c va y n).
+      { unfold temp_vertical_tendency.
+        rewrite (proj1 (vt_cong (n_temp x) (n_temp y) n Hn Et)), (proj2 (vt_cong (cTref c) (cTref c) n Hn (fun _ _ => eq_refl))).
+        reflexivity. }
+      assert (HN : hsa_nodal x (n_temp x) n = hsa_nodal y (n_temp y) n)
+        by (unfold hsa_nodal; now rewrite (Et n Hn), (Ed n Hn)).
+      repeat split.
+      - unfold temp_nodal_total. rewrite TV, HN. unfold temp_adiabatic. cbv zeta.
+        rewrite (proj1 (tomega_cong (cTref c) (cTref c) n Hn eq_refl)), (proj2 (tomega_cong (n_temp x) (n_temp y) n Hn (Et n Hn))).
+        reflexivity.
+      - unfold temp_nodal_total_moist. rewrite TV, HN. unfold temp_adiabatic_moist. cbv zeta.
+        rewrite (proj1 (tomega_cong (cTref c) (cTref c) n Hn eq_refl)).
+        do 3 f_equal. refine (proj2 (tomega_cong _ _ n Hn _)). cbv beta. now rewrite (Et n Hn), Hq.
+      - unfold tracer_nodal_total, hsa_nodal. rewrite (Ed n Hn), (Hs n Hn). destruct va; [|reflexivity].
+        rewrite (proj1 (vt_cong s s' n Hn Hs)). reflexivity.
+      - unfold log_pressure_tendency, sigma_integral. f_equal. apply sumn_ext; intros k Hk. unfold xdsigma. now rewrite udg_cong.
+      - unfold hsa_mu. now rewrite (Eu n Hn), (Hs n Hn), Es.
+      - unfold hsa_mv. now rewrite (Ev n Hn), (Hs n Hn), Es.
+      - unfold hsa_mu. now rewrite (Eu n Hn), (Et n Hn), Es.
+      - unfold hsa_mv. now rewrite (Ev n Hn), (Et n Hn), Es.
+      - unfold combined_u. cbv zeta. rewrite (proj1 (vt_cong (n_u x) (n_u y) n Hn Eu)).
+        now rewrite (Ev n Hn), (Ez n Hn), Ef, Es, Egx, Hrt.
+      - unfold combined_v. cbv zeta. rewrite (proj1 (vt_cong (n_v x) (n_v y) n Hn Ev)).
+        now rewrite (Eu n Hn), (Ez n Hn), Ef, Es, Egy, Hrt.
+      - unfold kinetic. now rewrite (Eu n Hn), (Ev n Hn), Es.
+    Qed.
+  End Cong.
 End PrimEqNodal.
 
 (** * 9. the explicit tendencies of the primitive equations (ModalAssembly of Model/PrimEq.v) are
@@ -925,6 +1006,7 @@ Section PrimEqTendencyMirror.
   Add Field FFsy9 : (field_c : FieldTh o).
   Variables W P : Type.
   Variable inW : W -> Prop.                                  (* index range of a modal array *)
+  Variable inP : P -> Prop.                                  (* index range of the nodes *)
   Variable toM : (P -> F) -> W -> F.                         (* grid.to_modal *)
   Variable divc curlc : (W -> F) -> (W -> F) -> W -> F.      (* div_cos_lat, curl_cos_lat (clip=False) *)
   Variable lap clip : (W -> F) -> W -> F.                    (* laplacian, clip_wavenumbers *)
@@ -944,7 +1026,7 @@ Section PrimEqTendencyMirror.
     (forall t a w, inW w -> L (fun w' => t * a w') w = t * L a w).
 
   (** the operators only read their arguments on the index range *)
-  Hypothesis toM_ext : forall z z', (forall p, z p = z' p) -> forall w, inW w -> toM z w = toM z' w.
+  Hypothesis toM_ext : forall z z', (forall p, inP p -> z p = z' p) -> forall w, inW w -> toM z w = toM z' w.
   Hypothesis clip_ext : ext1 clip.
   Hypothesis lap_ext : ext1 lap.
   Hypothesis divc_ext : ext2 divc.
@@ -966,9 +1048,9 @@ Section PrimEqTendencyMirror.
   (** the nodal columns of the mirrored state *)
   Definition mirX (X : P -> NCol) : P -> NCol := fun p => ncol_mirror (X (piN p)).
 
-  Lemma toM_even' (z' z : P -> F) w : (forall p, z' p = z (piN p)) -> inW w -> toM z' w = Se (toM z) w.
+  Lemma toM_even' (z' z : P -> F) w : (forall p, inP p -> z' p = z (piN p)) -> inW w -> toM z' w = Se (toM z) w.
   Proof. intros E Hw. rewrite <- toM_even by assumption. now apply toM_ext. Qed.
-  Lemma toM_odd' (z' z : P -> F) w : (forall p, z' p = - z (piN p)) -> inW w -> toM z' w = So (toM z) w.
+  Lemma toM_odd' (z' z : P -> F) w : (forall p, inP p -> z' p = - z (piN p)) -> inW w -> toM z' w = So (toM z) w.
   Proof. intros E Hw. rewrite <- toM_odd by assumption. now apply toM_ext. Qed.
 
   (** the flux-divergence term -div_sec_lat(u s, v s) of a scalar s *)
@@ -978,8 +1060,8 @@ Section PrimEqTendencyMirror.
     = Se (divc (toM (fun p => hsa_mu (X p) (s p) r)) (toM (fun p => hsa_mv (X p) (s p) r))) w.
   Proof.
     intros Hw. rewrite <- divc_mir by assumption. apply divc_ext; try assumption; intros w' Hw'.
-    - apply (toM_even' _ (fun p => hsa_mu (X p) (s p) r)); [|assumption]. intros p. reflexivity.
-    - apply (toM_odd' _ (fun p => hsa_mv (X p) (s p) r)); [|assumption]. intros p.
+    - apply (toM_even' _ (fun p => hsa_mu (X p) (s p) r)); [|assumption]. intros p _. reflexivity.
+    - apply (toM_odd' _ (fun p => hsa_mv (X p) (s p) r)); [|assumption]. intros p _.
       unfold mirX, hsa_mv, ncol_mirror. cbn [n_v n_sec2]. ring.
   Qed.
 
@@ -1005,7 +1087,7 @@ Section PrimEqTendencyMirror.
   Proof.
     intros Hr Hw. unfold temp_tendency_explicit.
     apply (scalar_eq_mirror (toM (fun p => temp_nodal_total c true (X p) r)) _ X (fun p => n_temp (X p)) r w Hw).
-    intros w' Hw'. apply toM_even'; [|assumption]. intros p. unfold mirX.
+    intros w' Hw'. apply toM_even'; [|assumption]. intros p _. unfold mirX.
     exact (proj1 (primeq_scalar_nodal_mirror c true (mkMoist 0 0) (X (piN p)) (fun _ => 0) (fun _ => 0) r Hr)).
   Qed.
 
@@ -1016,7 +1098,7 @@ Section PrimEqTendencyMirror.
   Proof.
     intros Hr Hw. unfold temp_tendency_explicit_moist.
     apply (scalar_eq_mirror (toM (fun p => temp_nodal_total_moist c true m (X p) (q p) r)) _ X (fun p => n_temp (X p)) r w Hw).
-    intros w' Hw'. apply toM_even'; [|assumption]. intros p. unfold mirX.
+    intros w' Hw'. apply toM_even'; [|assumption]. intros p _. unfold mirX.
     exact (proj1 (proj2 (primeq_scalar_nodal_mirror c true m (X (piN p)) (q (piN p)) (fun _ => 0) r Hr))).
   Qed.
 
@@ -1026,7 +1108,7 @@ Section PrimEqTendencyMirror.
   Proof.
     intros Hr Hw. unfold tracer_tendency_explicit.
     apply (scalar_eq_mirror (toM (fun p => tracer_nodal_total c true (X p) (s p) r)) _ X s r w Hw).
-    intros w' Hw'. apply toM_even'; [|assumption]. intros p. unfold mirX.
+    intros w' Hw'. apply toM_even'; [|assumption]. intros p _. unfold mirX.
     exact (proj1 (proj2 (proj2 (primeq_scalar_nodal_mirror c true (mkMoist 0 0) (X (piN p)) (fun _ => 0) (s (piN p)) r Hr)))).
   Qed.
 
@@ -1035,7 +1117,7 @@ Section PrimEqTendencyMirror.
     inW w ->
     toM (fun p => log_pressure_tendency c (mirX X p)) w = Se (toM (fun p => log_pressure_tendency c (X p))) w.
   Proof.
-    intros Hw. apply toM_even'; [|assumption]. intros p. unfold mirX.
+    intros Hw. apply toM_even'; [|assumption]. intros p _. unfold mirX.
     unfold log_pressure_tendency, sigma_integral. f_equal. apply sumn_ext; intros k _.
     unfold xdsigma. now rewrite udg_mirror.
   Qed.
@@ -1048,9 +1130,9 @@ Section PrimEqTendencyMirror.
                         = So (toM (fun p => combined_v c true (X p) (rt p) r)) w).
   Proof.
     intros Hr. split; intros w Hw.
-    - apply toM_even'; [|assumption]. intros p. unfold mirX.
+    - apply toM_even'; [|assumption]. intros p _. unfold mirX.
       exact (proj1 (primeq_vector_nodal_mirror c true (mkMoist 0 0) (X (piN p)) (rt (piN p)) (fun _ => 0) (fun _ => 0) (fun _ => 0) r Hr)).
-    - apply toM_odd'; [|assumption]. intros p. unfold mirX.
+    - apply toM_odd'; [|assumption]. intros p _. unfold mirX.
       exact (proj1 (proj2 (primeq_vector_nodal_mirror c true (mkMoist 0 0) (X (piN p)) (rt (piN p)) (fun _ => 0) (fun _ => 0) (fun _ => 0) r Hr))).
   Qed.
 
@@ -1069,7 +1151,7 @@ Section PrimEqTendencyMirror.
     { rewrite <- divc_mir by assumption. apply divc_ext; assumption. }
     assert (E2 : lap (toM (fun p => kinetic (mirX X p) r)) w' = Se (lap (toM (fun p => kinetic (X p) r))) w').
     { rewrite <- lap_mir by assumption. apply lap_ext; [|assumption]. intros w'' Hw''.
-      apply toM_even'; [|assumption]. intros p. unfold mirX.
+      apply toM_even'; [|assumption]. intros p _. unfold mirX.
       exact (proj1 (proj2 (proj2 (primeq_vector_nodal_mirror c true (mkMoist 0 0) (X (piN p)) (fun _ => 0) (fun _ => 0) (fun _ => 0) (fun _ => 0) r Hr)))). }
     rewrite E1, E2, (lap_mir orog w' Hw'). reflexivity.
   Qed.
@@ -1110,10 +1192,357 @@ Section PrimEqTendencyMirror.
         [ring|].
       f_equal; f_equal.
       + rewrite <- lap_mir by assumption. apply lap_ext; [|assumption]. intros w' Hw'.
-        apply toM_even'; [|assumption]. intros p. reflexivity.
-      + apply toM_even'; [|assumption]. intros p. unfold mirX.
+        apply toM_even'; [|assumption]. intros p _. reflexivity.
+      + apply toM_even'; [|assumption]. intros p _. unfold mirX.
         exact (proj1 (primeq_humidity_nodal_mirror c false m (X (piN p)) (q (piN p)) (gqx (piN p)) (gqy (piN p)) (lapn (piN p)) r)).
-    - unfold humidity_curl_modal. apply toM_odd'; [|assumption]. intros p. unfold mirX.
+    - unfold humidity_curl_modal. apply toM_odd'; [|assumption]. intros p _. unfold mirX.
       exact (proj1 (proj2 (primeq_humidity_nodal_mirror c false m (X (piN p)) (fun _ => 0) (gqx (piN p)) (gqy (piN p)) 0 r))).
   Qed.
+  (** ** congruence of the assembled tendencies in the family of nodal columns, and the mirror theorems for any
+      family that agrees entrywise (k < K, nodes in range) with the mirrored family *)
+  Definition cols_eqv (X Y : P -> @NCol F) : Prop := forall p, inP p -> ncol_eqv c (X p) (Y p).
+
+  Section AssemblyCong.
+    Variables X Y : P -> @NCol F.
+    Hypothesis EXY : cols_eqv X Y.
+    Variables (m : @Moist F) (rt rt' q q' s s' : P -> nat -> F) (r : nat).
+    Hypothesis Hr : (r < cK c)%nat.
+    Hypothesis Hrt : forall p, inP p -> rt p r = rt' p r.
+    Hypothesis Hq : forall p, inP p -> q p r = q' p r.
+    Hypothesis Hs : forall p, inP p -> forall k, (k < cK c)%nat -> s p k = s' p k.
+
+    Definition nodal_cong_at p (Hp : inP p) :=
+      primeq_nodal_cong c (X p) (Y p) (EXY p Hp) true m (rt p) (rt' p) (q p) (q' p) (s p) (s' p) r Hr
+                        (Hrt p Hp) (Hq p Hp) (Hs p Hp).
+
+    Theorem assembly_cong (orog hum humz : W -> F) w :
+      inW w ->
+      temp_tendency_explicit W P toM divc clip c X r w = temp_tendency_explicit W P toM divc clip c Y r w /\
+      temp_tendency_explicit_moist W P toM divc clip c m X q r w = temp_tendency_explicit_moist W P toM divc clip c m Y q' r w /\
+      tracer_tendency_explicit X s r w = tracer_tendency_explicit Y s' r w /\
+      toM (fun p => log_pressure_tendency c (X p)) w = toM (fun p => log_pressure_tendency c (Y p)) w /\
+      div_tendency_explicit W P toM divc lap clip c grav X rt orog hum r w
+        = div_tendency_explicit W P toM divc lap clip c grav Y rt' orog hum r w /\
+      vort_tendency_explicit W P toM curlc clip c X rt humz r w = vort_tendency_explicit W P toM curlc clip c Y rt' humz r w.
+    Proof.
+      intros Hw.
+      assert (FT : forall w', inW w' ->
+                divc (toM (fun p => hsa_mu (X p) (n_temp (X p)) r)) (toM (fun p => hsa_mv (X p) (n_temp (X p)) r)) w'
+                = divc (toM (fun p => hsa_mu (Y p) (n_temp (Y p)) r)) (toM (fun p => hsa_mv (Y p) (n_temp (Y p)) r)) w').
+      { intros w' Hw'. apply divc_ext; try assumption; intros w'' Hw''; apply toM_ext; try assumption; intros p Hp;
+          destruct (nodal_cong_at p Hp) as (_ & _ & _ & _ & _ & _ & C7 & C8 & _); assumption. }
+      assert (CUV : forall w', inW w' ->
+                toM (fun p => combined_u c true (X p) (rt p) r) w' = toM (fun p => combined_u c true (Y p) (rt' p) r) w' /\
+                toM (fun p => combined_v c true (X p) (rt p) r) w' = toM (fun p => combined_v c true (Y p) (rt' p) r) w').
+      { intros w' Hw'. split; apply toM_ext; try assumption; intros p Hp;
+          destruct (nodal_cong_at p Hp) as (_ & _ & _ & _ & _ & _ & _ & _ & C9 & C10 & _); assumption. }
+      repeat split.
+      - unfold temp_tendency_explicit. apply clip_ext; [|assumption]. intros w' Hw'. rewrite (FT w' Hw'). f_equal.
+        apply toM_ext; [|assumption]. intros p Hp. exact (proj1 (nodal_cong_at p Hp)).
+      - unfold temp_tendency_explicit_moist. apply clip_ext; [|assumption]. intros w' Hw'. rewrite (FT w' Hw'). f_equal.
+        apply toM_ext; [|assumption]. intros p Hp. exact (proj1 (proj2 (nodal_cong_at p Hp))).
+      - unfold tracer_tendency_explicit. apply clip_ext; [|assumption]. intros w' Hw'.
+        assert (FS : divc (toM (fun p => hsa_mu (X p) (s p) r)) (toM (fun p => hsa_mv (X p) (s p) r)) w'
+                     = divc (toM (fun p => hsa_mu (Y p) (s' p) r)) (toM (fun p => hsa_mv (Y p) (s' p) r)) w').
+        { apply divc_ext; try assumption; intros w'' Hw''; apply toM_ext; try assumption; intros p Hp;
+            destruct (nodal_cong_at p Hp) as (_ & _ & _ & _ & C5 & C6 & _); assumption. }
+        rewrite FS. f_equal. apply toM_ext; [|assumption]. intros p Hp.
+        exact (proj1 (proj2 (proj2 (nodal_cong_at p Hp)))).
+      - apply toM_ext; [|assumption]. intros p Hp. exact (proj1 (proj2 (proj2 (proj2 (nodal_cong_at p Hp))))).
+      - unfold div_tendency_explicit. apply clip_ext; [|assumption]. intros w' Hw'.
+        assert (E1 : divc (toM (fun p => combined_u c true (X p) (rt p) r)) (toM (fun p => combined_v c true (X p) (rt p) r)) w'
+                     = divc (toM (fun p => combined_u c true (Y p) (rt' p) r)) (toM (fun p => combined_v c true (Y p) (rt' p) r)) w').
+        { apply divc_ext; try assumption; intros w'' Hw''; apply (CUV w'' Hw''). }
+        assert (E2 : lap (toM (fun p => kinetic (X p) r)) w' = lap (toM (fun p => kinetic (Y p) r)) w').
+        { apply lap_ext; [|assumption]. intros w'' Hw''. apply toM_ext; [|assumption]. intros p Hp.
+          destruct (nodal_cong_at p Hp) as (_ & _ & _ & _ & _ & _ & _ & _ & _ & _ & C11). exact C11. }
+        rewrite E1, E2. reflexivity.
+      - unfold vort_tendency_explicit. apply clip_ext; [|assumption]. intros w' Hw'.
+        assert (E1 : curlc (toM (fun p => combined_u c true (X p) (rt p) r)) (toM (fun p => combined_v c true (X p) (rt p) r)) w'
+                     = curlc (toM (fun p => combined_u c true (Y p) (rt' p) r)) (toM (fun p => combined_v c true (Y p) (rt' p) r)) w').
+        { apply curlc_ext; try assumption; intros w'' Hw''; apply (CUV w'' Hw''). }
+        rewrite E1. reflexivity.
+    Qed.
+  End AssemblyCong.
+
+  (** the tendencies of ANY column family X' that agrees entrywise with the mirrored family of X
+      (as the columns synthesised from the mirrored modal state do) are the mirrored tendencies *)
+  Theorem primeq_mirrored_columns_tendency (m : Moist) (X X' : P -> NCol) (rt rt' q q' s s' : P -> nat -> F)
+          (orog hum humz : W -> F) r w :
+    cols_eqv X' (mirX X) -> (r < cK c)%nat -> inW w ->
+    (forall p, inP p -> rt' p r = rt (piN p) r) -> (forall p, inP p -> q' p r = q (piN p) r) ->
+    (forall p, inP p -> forall k, (k < cK c)%nat -> s' p k = s (piN p) k) ->
+    temp_tendency_explicit W P toM divc clip c X' r w = Se (temp_tendency_explicit W P toM divc clip c X r) w /\
+    temp_tendency_explicit_moist W P toM divc clip c m X' q' r w = Se (temp_tendency_explicit_moist W P toM divc clip c m X q r) w /\
+    tracer_tendency_explicit X' s' r w = Se (tracer_tendency_explicit X s r) w /\
+    toM (fun p => log_pressure_tendency c (X' p)) w = Se (toM (fun p => log_pressure_tendency c (X p))) w /\
+    div_tendency_explicit W P toM divc lap clip c grav X' rt' (Se orog) (Se hum) r w
+      = Se (div_tendency_explicit W P toM divc lap clip c grav X rt orog hum r) w /\
+    vort_tendency_explicit W P toM curlc clip c X' rt' (So humz) r w
+      = So (vort_tendency_explicit W P toM curlc clip c X rt humz r) w.
+  Proof.
+    intros EX Hr Hw Hrt Hq Hs.
+    destruct (assembly_cong X' (mirX X) EX m rt' (fun p => rt (piN p)) q' (fun p => q (piN p)) s' (fun p => s (piN p)) r Hr
+                            Hrt Hq Hs (Se orog) (Se hum) (So humz) w Hw) as (A1 & A2 & A3 & A4 & A5 & A6).
+    rewrite A1, A2, A3, A4, A5, A6.
+    repeat split.
+    - now apply primeq_temperature_mirror.
+    - now apply primeq_temperature_moist_mirror.
+    - now apply primeq_tracer_mirror.
+    - now apply primeq_lnps_mirror.
+    - now apply primeq_divergence_mirror.
+    - now apply primeq_vorticity_mirror.
+  Qed.
 End PrimEqTendencyMirror.
+
+(** * 10. ... instantiated with the concrete transforms and spectral operators: the explicit
+    primitive-equation tendencies assembled from Model/SHT.v analysis, Model/Deriv.v div / curl /
+    laplacian / clip are mirror-equivariant under the table hypotheses H_parity and H_nodes_sym *)
+Section PrimEqConcrete.
+  Context {F : Type} {o : Ops F} {Fc : FieldC o}.
+  Add Field FFsy10 : (field_c : FieldTh o).
+  Variables (fast : bool) (R L I J : nat).                 (* un-padded modal shape (R, L), nodal shape (I, J) *)
+  Variable f : nat -> nat -> F.
+  Variable p : nat -> nat -> nat -> F.
+  Variable wq : nat -> F.
+  Variables (rad : F) (wa wb : @marr F).                   (* radius, derivative recurrence weights *)
+  Variable c : @PEcfg F.
+  Variable grav : F.
+  Hypothesis HR : layout_ok fast R.
+  Hypothesis Hpar : H_parity fast R L J p.
+  Hypothesis Hnod : H_nodes_sym J wq.
+
+  Definition Wc := (nat * nat)%type.
+  Definition inWc (w : Wc) : Prop := (fst w < R)%nat /\ (snd w < L)%nat.
+  Definition inPc (q : Wc) : Prop := (fst q < I)%nat /\ (snd q < J)%nat.
+  Definition un (a : Wc -> F) : marr := fun i l => a (i, l).
+  Definition toMc (z : Wc -> F) (w : Wc) : F := analysis R I J f p wq (un z) (fst w) (snd w).
+  Definition piNc (q : Wc) : Wc := (fst q, (J - 1 - snd q)%nat).
+  Definition Sec (a : Wc -> F) (w : Wc) : F := mir_modal fast false (un a) (fst w) (snd w).
+  Definition Soc (a : Wc -> F) (w : Wc) : F := mir_modal fast true (un a) (fst w) (snd w).
+  Definition divcc (a b : Wc -> F) (w : Wc) : F := div_cos_lat fast L R L rad wa wb false (un a, un b) (fst w) (snd w).
+  Definition curlcc (a b : Wc -> F) (w : Wc) : F := curl_cos_lat fast L R L rad wa wb false (un a, un b) (fst w) (snd w).
+  Definition lapc (a : Wc -> F) (w : Wc) : F := laplacian L rad (un a) (fst w) (snd w).
+  Definition clipc (a : Wc -> F) (w : Wc) : F := clip L L 1 (un a) (fst w) (snd w).
+
+  Lemma tri_ext_range C (wm wp : nat -> nat -> F) (x y : arr2) i l :
+    (forall l', (l' < C)%nat -> x i l' = y i l') -> (l < C)%nat -> tri C wm wp x i l = tri C wm wp y i l.
+  Proof.
+    intros H Hl. unfold tri.
+    destruct (Nat.ltb_spec (S l) C); destruct (Nat.eqb_spec l 0); rewrite ?H by lia; reflexivity.
+  Qed.
+
+  Lemma D2_ext_range (x y : arr2) i l :
+    (forall l', (l' < L)%nat -> x i l' = y i l') -> (l < L)%nat -> D2 L L wa wb x i l = D2 L L wa wb y i l.
+  Proof. intros H Hl. rewrite !D2_entries by assumption. now apply tri_ext_range. Qed.
+
+  Lemma toMc_ext : forall z z' : Wc -> F, (forall q, inPc q -> z q = z' q) -> forall w, inWc w -> toMc z w = toMc z' w.
+  Proof.
+    intros z z' E [a l] [Ha Hl]. unfold toMc. apply analysis_ext; [exact Ha|]. intros i j Hi Hj. apply E. split; assumption.
+  Qed.
+
+  Lemma clipc_ext : ext1 Wc inWc clipc.
+  Proof. intros a b E [i l] Hw. unfold clipc, clip, un. cbn [fst snd]. now rewrite (E (i, l) Hw). Qed.
+  Lemma lapc_ext : ext1 Wc inWc lapc.
+  Proof. intros a b E [i l] Hw. unfold lapc, laplacian, un. cbn [fst snd]. now rewrite (E (i, l) Hw). Qed.
+  Lemma Sec_ext : ext1 Wc inWc Sec.
+  Proof. intros a b E [i l] Hw. unfold Sec, mir_modal, un. cbn [fst snd]. now rewrite (E (i, l) Hw). Qed.
+  Lemma Soc_ext : ext1 Wc inWc Soc.
+  Proof. intros a b E [i l] Hw. unfold Soc, mir_modal, un. cbn [fst snd]. now rewrite (E (i, l) Hw). Qed.
+
+  Lemma divcc_ext : ext2 Wc inWc divcc.
+  Proof.
+    intros a a' b b' Ea Eb [i l] [Hi Hl]. cbn [fst snd] in Hi, Hl. unfold divcc, div_cos_lat, clip_if. cbn [fst snd].
+    rewrite (d_dlon_ext fast R (un a) (un a') i l) by (try assumption; intros i' Hi'; apply Ea; split; assumption).
+    rewrite (D2_ext_range (un b) (un b') i l) by (try assumption; intros l' Hl'; apply Eb; split; assumption).
+    reflexivity.
+  Qed.
+  Lemma curlcc_ext : ext2 Wc inWc curlcc.
+  Proof.
+    intros a a' b b' Ea Eb [i l] [Hi Hl]. cbn [fst snd] in Hi, Hl. unfold curlcc, curl_cos_lat, clip_if. cbn [fst snd].
+    rewrite (d_dlon_ext fast R (un b) (un b') i l) by (try assumption; intros i' Hi'; apply Eb; split; assumption).
+    rewrite (D2_ext_range (un a) (un a') i l) by (try assumption; intros l' Hl'; apply Ea; split; assumption).
+    reflexivity.
+  Qed.
+
+  Lemma Sec_lin : lin1 Wc inWc Sec.
+  Proof. repeat split; intros; unfold Sec, mir_modal, un; ring. Qed.
+  Lemma Soc_lin : lin1 Wc inWc Soc.
+  Proof. repeat split; intros; unfold Soc, mir_modal, un; ring. Qed.
+
+  Lemma toMc_even : forall (z : Wc -> F) w, inWc w -> toMc (fun q => z (piNc q)) w = Sec (toMc z) w.
+  Proof.
+    intros z [a l] [Ha Hl]. cbn [fst snd] in Ha, Hl. unfold toMc, Sec. cbn [fst snd].
+    change (un (fun w : Wc => analysis R I J f p wq (un z) (fst w) (snd w))) with (analysis R I J f p wq (un z)).
+    rewrite <- (analysis_mir_equivariant fast R L I J f p wq false (un z) a l Hpar Hnod Ha Hl).
+    apply analysis_ext; [exact Ha|]. intros i j _ _. unfold un, piNc, flip_lat. cbn. ring.
+  Qed.
+  Lemma toMc_odd : forall (z : Wc -> F) w, inWc w -> toMc (fun q => - z (piNc q)) w = Soc (toMc z) w.
+  Proof.
+    intros z [a l] [Ha Hl]. cbn [fst snd] in Ha, Hl. unfold toMc, Soc. cbn [fst snd].
+    change (un (fun w : Wc => analysis R I J f p wq (un z) (fst w) (snd w))) with (analysis R I J f p wq (un z)).
+    rewrite <- (analysis_mir_equivariant fast R L I J f p wq true (un z) a l Hpar Hnod Ha Hl).
+    apply analysis_ext; [exact Ha|]. intros i j _ _. unfold un, piNc, flip_lat. cbn. ring.
+  Qed.
+
+  Lemma un_Sec a : un (Sec a) = mir_modal fast false (un a). Proof. reflexivity. Qed.
+  Lemma un_Soc a : un (Soc a) = mir_modal fast true (un a). Proof. reflexivity. Qed.
+
+  Lemma divcc_mir : forall a b w, inWc w -> divcc (Sec a) (Soc b) w = Sec (divcc a b) w.
+  Proof.
+    intros a b [i l] [Hi Hl]. cbn [fst snd] in Hi, Hl. unfold divcc at 1. cbn [fst snd]. rewrite un_Sec, un_Soc.
+    exact (proj1 (proj2 (proj2 (vector_calculus_mirror fast L R L rad wa wb false HR false (un a) (un a) (un b) i l Hi Hl)))).
+  Qed.
+  Lemma curlcc_mir : forall a b w, inWc w -> curlcc (Sec a) (Soc b) w = Soc (curlcc a b) w.
+  Proof.
+    intros a b [i l] [Hi Hl]. cbn [fst snd] in Hi, Hl. unfold curlcc at 1. cbn [fst snd]. rewrite un_Sec, un_Soc.
+    exact (proj1 (proj2 (proj2 (proj2 (vector_calculus_mirror fast L R L rad wa wb false HR false (un a) (un a) (un b) i l Hi Hl))))).
+  Qed.
+  Lemma lapc_mir : forall a w, inWc w -> lapc (Sec a) w = Sec (lapc a) w.
+  Proof. intros a [i l] _. unfold lapc, Sec, laplacian, mir_modal, un. cbn [fst snd]. ring. Qed.
+  Lemma clipc_Se : forall a w, inWc w -> clipc (Sec a) w = Sec (clipc a) w.
+  Proof. intros a [i l] _. unfold clipc, Sec, clip, mir_modal, un. cbn [fst snd]. ring. Qed.
+  Lemma clipc_So : forall a w, inWc w -> clipc (Soc a) w = Soc (clipc a) w.
+  Proof. intros a [i l] _. unfold clipc, Soc, clip, mir_modal, un. cbn [fst snd]. ring. Qed.
+
+  (** X: the nodal columns of a state, indexed by the node (i, j); [mirX piNc X] those of the mirrored state *)
+  Theorem primeq_tendency_mirror_equivariant (m : Moist) (X : Wc -> NCol) (rt q s : Wc -> nat -> F) (orog hum humz : Wc -> F) r a l :
+    (r < cK c)%nat -> (a < R)%nat -> (l < L)%nat ->
+    (* temperature (dry, moist), tracers, log surface pressure, divergence: scalars *)
+    temp_tendency_explicit Wc Wc toMc divcc clipc c (mirX Wc piNc X) r (a, l)
+      = mir_modal fast false (un (temp_tendency_explicit Wc Wc toMc divcc clipc c X r)) a l /\
+    temp_tendency_explicit_moist Wc Wc toMc divcc clipc c m (mirX Wc piNc X) (fun n => q (piNc n)) r (a, l)
+      = mir_modal fast false (un (temp_tendency_explicit_moist Wc Wc toMc divcc clipc c m X q r)) a l /\
+    tracer_tendency_explicit Wc Wc toMc divcc clipc c (mirX Wc piNc X) (fun n => s (piNc n)) r (a, l)
+      = mir_modal fast false (un (tracer_tendency_explicit Wc Wc toMc divcc clipc c X s r)) a l /\
+    toMc (fun n => log_pressure_tendency c (mirX Wc piNc X n)) (a, l)
+      = mir_modal fast false (un (toMc (fun n => log_pressure_tendency c (X n)))) a l /\
+    div_tendency_explicit Wc Wc toMc divcc lapc clipc c grav (mirX Wc piNc X) (fun n => rt (piNc n)) (Sec orog) (Sec hum) r (a, l)
+      = mir_modal fast false (un (div_tendency_explicit Wc Wc toMc divcc lapc clipc c grav X rt orog hum r)) a l /\
+    (* vorticity: pseudo-scalar *)
+    vort_tendency_explicit Wc Wc toMc curlcc clipc c (mirX Wc piNc X) (fun n => rt (piNc n)) (Soc humz) r (a, l)
+      = mir_modal fast true (un (vort_tendency_explicit Wc Wc toMc curlcc clipc c X rt humz r)) a l.
+  Proof.
+    intros Hr Ha Hl. assert (Hw : inWc (a, l)) by (split; assumption).
+    repeat split.
+    - exact (primeq_temperature_mirror Wc Wc inWc inPc toMc divcc clipc c piNc Sec Soc toMc_ext clipc_ext divcc_ext Sec_lin
+               toMc_even toMc_odd divcc_mir clipc_Se X r (a, l) Hr Hw).
+    - exact (primeq_temperature_moist_mirror Wc Wc inWc inPc toMc divcc clipc c piNc Sec Soc toMc_ext clipc_ext divcc_ext Sec_lin
+               toMc_even toMc_odd divcc_mir clipc_Se m X q r (a, l) Hr Hw).
+    - exact (primeq_tracer_mirror Wc Wc inWc inPc toMc divcc clipc c piNc Sec Soc toMc_ext clipc_ext divcc_ext Sec_lin
+               toMc_even toMc_odd divcc_mir clipc_Se X s r (a, l) Hr Hw).
+    - exact (primeq_lnps_mirror Wc Wc inWc inPc toMc c piNc Sec toMc_ext toMc_even X (a, l) Hw).
+    - exact (primeq_divergence_mirror Wc Wc inWc inPc toMc divcc lapc clipc c grav piNc Sec Soc toMc_ext clipc_ext lapc_ext divcc_ext
+               Sec_lin toMc_even toMc_odd divcc_mir lapc_mir clipc_Se X rt orog hum r (a, l) Hr Hw).
+    - exact (primeq_vorticity_mirror Wc Wc inWc inPc toMc curlcc clipc c piNc Sec Soc toMc_ext clipc_ext curlcc_ext Soc_lin
+               toMc_even toMc_odd curlcc_mir clipc_So X rt humz r (a, l) Hr Hw).
+  Qed.
+
+  (** ** from the mirrored MODAL state to the mirrored family of nodal columns *)
+  Lemma D1_ext_range (x y : arr2) i l :
+    (forall l', (l' < L)%nat -> x i l' = y i l') -> (l < L)%nat -> D1 L L wa wb x i l = D1 L L wa wb y i l.
+  Proof. intros H Hl. rewrite !D1_entries by assumption. now apply tri_ext_range. Qed.
+
+  Lemma grad_ext cl (x y : arr2) i l :
+    (forall i' l', (i' < R)%nat -> (l' < L)%nat -> x i' l' = y i' l') -> (i < R)%nat -> (l < L)%nat ->
+    fst (cos_lat_grad fast L R L rad wa wb cl x) i l = fst (cos_lat_grad fast L R L rad wa wb cl y) i l /\
+    snd (cos_lat_grad fast L R L rad wa wb cl x) i l = snd (cos_lat_grad fast L R L rad wa wb cl y) i l.
+  Proof.
+    intros E Hi Hl. unfold cos_lat_grad. cbn [fst snd]. rewrite !(clip_if_entry L L cl).
+    rewrite (d_dlon_ext fast R x y i l) by (try assumption; intros i' Hi'; now apply E).
+    rewrite (D1_ext_range x y i l) by (try assumption; intros l' Hl'; now apply E).
+    split; reflexivity.
+  Qed.
+
+  (** get_cos_lat_vector of (pseudo-scalar vorticity, scalar divergence) is an (even, odd) vector *)
+  Theorem get_cos_lat_vector_mirror cl (vort dive : marr) i l :
+    (i < R)%nat -> (l < L)%nat ->
+    fst (get_cos_lat_vector fast L R L rad wa wb cl (mir_modal fast true vort) (mir_modal fast false dive)) i l
+      = mir_modal fast false (fst (get_cos_lat_vector fast L R L rad wa wb cl vort dive)) i l /\
+    snd (get_cos_lat_vector fast L R L rad wa wb cl (mir_modal fast true vort) (mir_modal fast false dive)) i l
+      = mir_modal fast true (snd (get_cos_lat_vector fast L R L rad wa wb cl vort dive)) i l.
+  Proof.
+    intros Hi Hl. unfold get_cos_lat_vector. cbv zeta. unfold k_cross. cbn [fst snd].
+    assert (Esf : forall i' l', (i' < R)%nat -> (l' < L)%nat ->
+                  inverse_laplacian L rad (mir_modal fast true vort) i' l' = mir_modal fast true (inverse_laplacian L rad vort) i' l')
+      by (intros; unfold inverse_laplacian, mir_modal; ring).
+    assert (Evp : forall i' l', (i' < R)%nat -> (l' < L)%nat ->
+                  inverse_laplacian L rad (mir_modal fast false dive) i' l' = mir_modal fast false (inverse_laplacian L rad dive) i' l')
+      by (intros; unfold inverse_laplacian, mir_modal; ring).
+    destruct (grad_ext cl _ _ i l Esf Hi Hl) as [S1 S2]. destruct (grad_ext cl _ _ i l Evp Hi Hl) as [V1 V2].
+    rewrite S1, S2, V1, V2.
+    destruct (vector_calculus_mirror fast L R L rad wa wb cl HR true (inverse_laplacian L rad vort)
+                                     (inverse_laplacian L rad vort) (inverse_laplacian L rad vort) i l Hi Hl) as (G1 & G2 & _).
+    destruct (vector_calculus_mirror fast L R L rad wa wb cl HR false (inverse_laplacian L rad dive)
+                                     (inverse_laplacian L rad dive) (inverse_laplacian L rad dive) i l Hi Hl) as (P1 & P2 & _).
+    rewrite G1, G2, P1, P2. cbn [negb]. unfold mir_modal. cbn [sgn_if]. split; ring.
+  Qed.
+
+  (** nodal columns synthesised from the modal diagnostic fields (levels k) and the two latitude tables *)
+  Definition cols_of_modal (um vm zeta delta temp : nat -> @marr F) (gxm gym : @marr F) (sec2 cor : nat -> F) : Wc -> @NCol F :=
+    fun q => mkNCol (fun k => synth R L J f p (um k) (fst q) (snd q)) (fun k => synth R L J f p (vm k) (fst q) (snd q))
+                    (fun k => synth R L J f p (zeta k) (fst q) (snd q)) (fun k => synth R L J f p (delta k) (fst q) (snd q))
+                    (fun k => synth R L J f p (temp k) (fst q) (snd q))
+                    (synth R L J f p gxm (fst q) (snd q)) (synth R L J f p gym (fst q) (snd q)) (sec2 (snd q)) (cor (snd q)).
+
+  Theorem primeq_columns_of_mirrored_state (um vm zeta delta temp : nat -> marr) (gxm gym : marr) (sec2 cor : nat -> F) :
+    (forall j, (j < J)%nat -> sec2 j = sec2 (J - 1 - j)%nat) -> (forall j, (j < J)%nat -> cor j = - cor (J - 1 - j)%nat) ->
+    cols_eqv Wc inPc c
+      (cols_of_modal (fun k => mir_modal fast false (um k)) (fun k => mir_modal fast true (vm k))
+                     (fun k => mir_modal fast true (zeta k)) (fun k => mir_modal fast false (delta k))
+                     (fun k => mir_modal fast false (temp k)) (mir_modal fast false gxm) (mir_modal fast true gym) sec2 cor)
+      (mirX Wc piNc (cols_of_modal um vm zeta delta temp gxm gym sec2 cor)).
+  Proof.
+    intros Hs Hc [i j] [Hi Hj]. cbn [fst snd] in Hi, Hj.
+    unfold ncol_eqv, mirX, ncol_mirror, cols_of_modal, piNc.
+    cbn [n_u n_v n_vort n_div n_temp n_gx n_gy n_sec2 n_f fst snd].
+    repeat split; try (intros k _);
+      try (rewrite (synth_mir_equivariant fast R L J f p wq _ _ i j Hpar Hj); unfold flip_lat; cbn [sgn_if]; ring).
+    - exact (Hs j Hj).
+    - exact (Hc j Hj).
+  Qed.
+
+  (** ** the tendencies computed from the mirrored modal state are the mirrored tendencies *)
+  Theorem primeq_mirrored_state_tendency (m : Moist) (um vm zeta delta temp : nat -> marr) (gxm gym : marr) (sec2 cor : nat -> F)
+          (rt rt' q q' s s' : Wc -> nat -> F) (orog hum humz : Wc -> F) r a l :
+    let X := cols_of_modal um vm zeta delta temp gxm gym sec2 cor in
+    let X' := cols_of_modal (fun k => mir_modal fast false (um k)) (fun k => mir_modal fast true (vm k))
+                            (fun k => mir_modal fast true (zeta k)) (fun k => mir_modal fast false (delta k))
+                            (fun k => mir_modal fast false (temp k)) (mir_modal fast false gxm) (mir_modal fast true gym) sec2 cor in
+    (forall j, (j < J)%nat -> sec2 j = sec2 (J - 1 - j)%nat) -> (forall j, (j < J)%nat -> cor j = - cor (J - 1 - j)%nat) ->
+    (forall n, inPc n -> rt' n r = rt (piNc n) r) -> (forall n, inPc n -> q' n r = q (piNc n) r) ->
+    (forall n, inPc n -> forall k, (k < cK c)%nat -> s' n k = s (piNc n) k) ->
+    (r < cK c)%nat -> (a < R)%nat -> (l < L)%nat ->
+    temp_tendency_explicit Wc Wc toMc divcc clipc c X' r (a, l)
+      = mir_modal fast false (un (temp_tendency_explicit Wc Wc toMc divcc clipc c X r)) a l /\
+    temp_tendency_explicit_moist Wc Wc toMc divcc clipc c m X' q' r (a, l)
+      = mir_modal fast false (un (temp_tendency_explicit_moist Wc Wc toMc divcc clipc c m X q r)) a l /\
+    tracer_tendency_explicit Wc Wc toMc divcc clipc c X' s' r (a, l)
+      = mir_modal fast false (un (tracer_tendency_explicit Wc Wc toMc divcc clipc c X s r)) a l /\
+    toMc (fun n => log_pressure_tendency c (X' n)) (a, l)
+      = mir_modal fast false (un (toMc (fun n => log_pressure_tendency c (X n)))) a l /\
+    div_tendency_explicit Wc Wc toMc divcc lapc clipc c grav X' rt' (Sec orog) (Sec hum) r (a, l)
+      = mir_modal fast false (un (div_tendency_explicit Wc Wc toMc divcc lapc clipc c grav X rt orog hum r)) a l /\
+    vort_tendency_explicit Wc Wc toMc curlcc clipc c X' rt' (Soc humz) r (a, l)
+      = mir_modal fast true (un (vort_tendency_explicit Wc Wc toMc curlcc clipc c X rt humz r)) a l.
+  Proof.
+    intros X X' Hs Hc Hrt Hq Hss Hr Ha Hl. assert (Hw : inWc (a, l)) by (split; assumption).
+    exact (primeq_mirrored_columns_tendency Wc Wc inWc inPc toMc divcc curlcc lapc clipc c grav piNc Sec Soc
+             toMc_ext clipc_ext lapc_ext divcc_ext curlcc_ext Sec_lin Soc_lin toMc_even toMc_odd divcc_mir curlcc_mir
+             lapc_mir clipc_Se clipc_So m X X' rt rt' q q' s s' orog hum humz r (a, l)
+             (primeq_columns_of_mirrored_state um vm zeta delta temp gxm gym sec2 cor Hs Hc) Hr Hw Hrt Hq Hss).
+  Qed.
+  (** humidity corrections of the moist classes, concrete operators *)
+  Theorem primeq_humidity_mirror_concrete (m : Moist) (X : Wc -> NCol) (q gqx gqy : Wc -> nat -> F) (lapn : Wc -> F) r a l :
+    (a < R)%nat -> (l < L)%nat ->
+    humidity_div_modal Wc Wc toMc lapc c m (mirX Wc piNc X) (fun n => q (piNc n)) (fun n => gqx (piNc n))
+                       (fun n k => - gqy (piNc n) k) (fun n => lapn (piNc n)) r (a, l)
+      = mir_modal fast false (un (humidity_div_modal Wc Wc toMc lapc c m X q gqx gqy lapn r)) a l /\
+    humidity_curl_modal Wc Wc toMc c m (mirX Wc piNc X) (fun n => gqx (piNc n)) (fun n k => - gqy (piNc n) k) r (a, l)
+      = mir_modal fast true (un (humidity_curl_modal Wc Wc toMc c m X gqx gqy r)) a l.
+  Proof.
+    intros Ha Hl. assert (Hw : inWc (a, l)) by (split; assumption).
+    exact (primeq_humidity_mirror Wc Wc inWc inPc toMc lapc c piNc Sec Soc toMc_ext lapc_ext Sec_ext Sec_lin toMc_even toMc_odd
+                                  lapc_mir m X q gqx gqy lapn r (a, l) Hw).
+  Qed.
+End PrimEqConcrete.
